@@ -37,6 +37,12 @@ DEF_MUTATORS = {
     "move_to_end", "appendleft", "popleft", "extendleft", "rotate", "__setitem__", "__delitem__", "difference_update",
     "intersection_update", "symmetric_difference_update", "__setattr__", "__delattr__",
 }
+# library functions that return an object shared by the whole interpreter: what is stored on their result is a global setting
+GLOBAL_ACCESSORS = {"decimal.getcontext", "logging.getLogger", "importlib.import_module", "sys.modules.get", "locale.localeconv", "warnings._get_filters",
+                    "mimetypes.MimeTypes", "codecs.lookup", "gc.get_objects", "threading.main_thread", "threading.current_thread", "asyncio.get_event_loop"}
+# methods that change such an object
+SETTER_METHODS = {"setLevel", "addHandler", "removeHandler", "addFilter", "removeFilter", "disable", "add_type", "read_mime_types", "register", "setprofile", "settrace",
+                  "setrecursionlimit", "clear_flags", "clear_traps"}
 REMOVALS = {"pop", "popitem", "clear", "discard", "remove", "popleft"}
 READERS = {
     "get", "keys", "values", "items", "copy", "index", "count", "startswith", "endswith", "decode", "encode", "hex", "join", "split", "rsplit",
@@ -421,6 +427,12 @@ class Analysis:
     def L_call(self, fn, e, at):
         f = e.func
         d = dotted(f)
+        if d:
+            root, _, rest = d.partition(".")
+            org = self.imports[fn.rel].get(root) if root not in fn.locals else None
+            full = (org + ("." + rest if rest else "")) if org else ""
+            if full in GLOBAL_ACCESSORS:
+                return frozenset({"X:" + full + "()"})       # hands out an interpreter-wide object (context, logger, module)
         if d in ("getattr",) and e.args:
             return comp(self.L(fn, e.args[0], at)) | (self.L(fn, e.args[2], at) if len(e.args) > 2 else frozenset())
         if d in FRESH_BUILTINS:
@@ -614,6 +626,9 @@ class Analysis:
                     if not recv:
                         continue
                     m = f.attr
+                    if m in SETTER_METHODS and any(l.startswith("X:") for l in recv):
+                        hit(frozenset(l for l in recv if l.startswith("X:")), n, f"line {n.lineno}: {ast.unparse(n)[:80]}", True)
+                        continue
                     if m in DEF_MUTATORS:
                         key = n.args[0] if n.args and m in ("setdefault", "pop", "move_to_end") else None
                         val = n.args[1] if m == "setdefault" and len(n.args) > 1 else (n.args[0] if m in ("append", "add", "appendleft") and n.args else None)
@@ -1595,3 +1610,34 @@ def certain_mutation(an, e):
         return False
     # passed to a function that mutates its parameter: certain only if the callee's own mutation is a definite form
     return must_carry(an, fn, recv, e["node"], e["state"]) is not None
+
+
+def callee_closure(an, key, limit=400):
+    """Keys of the package functions reachable from `key` through resolved calls (transitively)."""
+    cache = getattr(an, "_closure", None)
+    if cache is None:
+        cache = an._closure = {}
+        an._callees = {}
+        for fn in an.fns.values():
+            out = set()
+            for n in fn.own:
+                if isinstance(n, ast.Call):
+                    k = an.resolve_call(fn, n)
+                    if k is not None:
+                        out.add(k)
+            # nested functions run as part of their parent
+            for k2, g in an.fns.items():
+                if g.parent == fn.key():
+                    out.add(k2)
+            an._callees[fn.key()] = out
+    if key in cache:
+        return cache[key]
+    seen, stack = set(), [key]
+    while stack and len(seen) < limit:
+        k = stack.pop()
+        for c in an._callees.get(k, ()):
+            if c not in seen:
+                seen.add(c)
+                stack.append(c)
+    cache[key] = seen
+    return seen
